@@ -102,11 +102,13 @@ def run(pid, tier):
         first = vel.impl_tlc(nodes, cases_file, d, levels, "both", tag0 + "-both")
         todo = [("both", tag0 + "-both", first)]
         if first["violated"]:
-            todo = [(m, "%s-%s" % (tag0, m), vel.impl_tlc(nodes, cases_file, d, levels, m, "%s-%s" % (tag0, m)))
-                    for m in ("pay", "fee")]
+            todo = [(m, "%s-%s" % (tag0, m), vel.impl_tlc(nodes, cases_file, d, levels, m, "%s-%s" % (tag0, m), conform=False))
+                    for m in (("pay", "fee") if levels == "node" else ("pay",))]
         tot_edges += first["report"]["edges"]
         for mon, tag, r in todo:
-            rep = r["report"]
+            rep = dict(r["report"])
+            for k in ("ndivergent", "nfailed", "divergences", "failed"):   # measured once, in the first run
+                rep[k] = first["report"][k]
             cov["legs"]["B_impl_" + tag] = {
                 "impl_states": rep["nodes"], "impl_states_expanded": rep["expanded"], "impl_edges": rep["edges"],
                 "approved_edges": rep["approved"], "graphs": rep["roots"], "product_states": r["distinct"],
@@ -116,8 +118,8 @@ def run(pid, tier):
             tot_states += r["distinct"]
             tot_trans += r["states"]
             if mon != "fee":
-                divergences += [{"run": tag, **x} for x in rep["divergences"][:10]]
-                divergences += [{"run": tag, "failed_call": True, **x} for x in rep["failed"][:5]]
+                divergences += [{"run": tag0, **x} for x in rep["divergences"][:10]]
+                divergences += [{"run": tag0, "failed_call": True, **x} for x in rep["failed"][:5]]
             if r["violated"]:
                 seq = vel.trace_steps(r["trace"])
                 cid = seq[-1]["case"]
